@@ -103,6 +103,8 @@ class Types:
                     tt = self.parse(args[1]); return tt.args[int(args[0])]
                 if head in ('std::vector',) and tail in ('::value_type', '::reference', '::const_reference'):
                     return self.parse(args[0])
+                if head == '__gnu_cxx::__alloc_traits' and tail in ('::value_type', '::reference', '::const_reference'):
+                    return self.parse(args[1])
                 if head == 'std::vector' and tail in ('::iterator', '::const_iterator'):
                     return T('ptr', args=[self.parse(args[0])])
                 raise Abort('type ' + s)
